@@ -31,6 +31,8 @@ ASSUMPTIONS = ["bit-exact comparison relies on content independence of worlds un
 
 EXCLUDE_PREFIX = ("light_", "mat_", "cam_")
 EXCLUDE = {"geom_rgba", "geom_matid", "geom_dataid", "body_quat", "body_iquat", "geom_quat", "site_quat", "qpos0", "qpos_spring"}
+ADDITIVE = {"geom_margin": 0.05, "jnt_margin": 0.05, "tendon_margin": 0.05, "dof_damping": 0.5, "dof_armature": 0.05, "jnt_stiffness": 5.0,
+            "tendon_damping": 0.5, "tendon_stiffness": 5.0}
 UNIT_FIELDS = {"jnt_solimp", "dof_solimp", "geom_solimp", "pair_solimp", "eq_solimp", "tendon_solimp_lim", "tendon_solimp_fri"}
 
 
@@ -104,7 +106,10 @@ def _apply(m, key, factors):
   obj, name = _get(m, key)
   arr = getattr(obj, name)
   base = arr.numpy()[0:1].copy()
-  vals = np.concatenate([(base * f).astype(base.dtype) for f in factors], axis=0)
+  # fields that are zero in most models (a factor would leave them zero, i.e. dead) additionally get |f-1| * eps; only fields whose
+  # zero value is not used by put_model to skip work (margins, damping, armature, stiffness)
+  eps = ADDITIVE.get(name, 0.0)
+  vals = np.concatenate([(base * f + np.float32(abs(float(f) - 1.0) * eps)).astype(base.dtype) for f in factors], axis=0)
   if arr.shape[0] == len(factors):
     arr.numpy()[...] = vals
     return arr
@@ -121,6 +126,10 @@ def run(sc):
   nworld, t, K = sc["nworld"], sc["target"], sc["K"]
   stats = {"evaluations": 0, "nontrivial": [], "faults": {}, "skipped": {}, "sim_time": 0.0, "sets": {}}
   model_batch = {k.split(".")[1]: b for k, b in sc["batch"].items() if k.startswith("model.")}
+  if "geom_margin" in model_batch:
+    # put_model refuses non-zero margins on CCD pairs while MULTICCD is enabled: margins that become non-zero by the additive
+    # perturbation must stay inside the accepted input space, so multi-contact CCD is switched off for these runs
+    sc = dict(sc, model=dict(sc["model"], opt=dict(sc["model"]["opt"], disableflags=int(sc["model"]["opt"].get("disableflags", 0)) | 524288)))
   mjm, mb = core.make_model(sc["model"], batch_sizes=model_batch)  # batched fields
   _, mr = core.make_model(sc["model"])  # reference: unbatched, target world's values
   _, m0 = core.make_model(sc["model"])  # unperturbed (liveness)
